@@ -925,7 +925,8 @@ class MatrixOperator(Operator):
                 # sparse matrices
                 out[:] = self.matrix.dot(x)
             elif self.range.ndim == 1:
-                with writable_array(out) as out_arr:
+                # `dot` requires a C-contiguous output array
+                with writable_array(out, order='C') as out_arr:
                     self.matrix.dot(x, out=out_arr)
             else:
                 # Could use einsum to have out, but it's damn slow
